@@ -9,12 +9,14 @@ Import ListNotations.
 Local Open Scope Z_scope.
 
 Definition sid_of (n : N) : str := [x53; n2b n].            (* session ordinal -> id *)
-Inductive qsid := QSess (n : N) | QUnknown (n : N) | QOneChar (n : N).
+Inductive qsid := QSess (n : N) | QUnknown (n : N) | QOneChar (n : N)
+  | QDerived (n k : N).   (* an id derived from session n's id (prefix, suffix, case, substring): names no stored session *)
 Definition qsid_str (q : qsid) : str :=
   match q with
   | QSess n => sid_of n
   | QUnknown n => [x55; n2b n]
   | QOneChar n => [x53; n2b n; x21]
+  | QDerived n k => [x44; n2b n; n2b k]
   end.
 
 Inductive kspec := KNone | KKey (proto : str) (len : N).
